@@ -276,13 +276,21 @@ class C10(Family):
     # (_check_shape, _is_symmetric) on every run and proved equal to the model's checkShape / isSymD
     extra_modules = ["CtrlVerif.Props.C10Stable",    # stability half (Lyapunov argument over C)
                      "CtrlVerif.Props.C10Gen"]
+    # (py2lean-mateqn) the BODIES of lyap / dlyap / care / dare and _slycot_or_scipy: Generated/MatEqn{Method,Lyap,
+    # Dlyap,Care,Dare}.lean are rewritten from the source text and proved equal to lyapD / dlyapD / careD / dareD;
+    # headline theorems transported to the generated functions
+    extra_modules += ["CtrlVerif.Props.C10GenMethod", "CtrlVerif.Props.C10GenLyap", "CtrlVerif.Props.C10GenCare",
+                      "CtrlVerif.Props.C10GenDare", "CtrlVerif.Props.C10GenBody"]
 
     def pre_build(self):
         import os
         from core import py2lean_select, leanproj
         problems, self.gen_info = py2lean_select.regenerate(
             os.environ.get("VERIF_REPO") or "/repo", leanproj.LEAN, "C10")
-        return problems
+        from core import py2lean_meq                                   # (py2lean-mateqn)
+        problems_meq, self.gen_info_meq = py2lean_meq.regenerate(
+            os.environ.get("VERIF_REPO") or "/repo", leanproj.LEAN)
+        return problems + problems_meq
 
     externals = ["scipy.linalg.solve_continuous_lyapunov / solve_discrete_lyapunov / solve_sylvester / "
                  "solve_continuous_are / solve_discrete_are (contract structures of Props/C10.lean: the "
